@@ -351,6 +351,31 @@ func gen(t *rapid.T) Case {
 		case 2:
 			c.NearMiss = "retype:" + ms[ri].Name
 			ms[ri].Raw = rapid.SampledFrom([]string{"null", `"x"`, "1", "true", "[]", "{}"}).Draw(t, "raw")
+			if rapid.IntRange(0, 2).Draw(t, "retypeUsage") == 0 {
+				// the optional member mistyped instead of (or, moved to the front, together with) a required one: a text
+				// whose members do not have their types is no KeyID
+				for i := range ms {
+					if ms[i].Name == "usage" {
+						ms[i].Raw = rapid.SampledFrom([]string{`"1"`, `"ssh-only"`, "[]", "{}", "true", "1.5"}).Draw(t, "usageRaw")
+						c.NearMiss += "+usage"
+						if rapid.Bool().Draw(t, "usageFirst") {
+							u := ms[i]
+							ms = append([]vh.Member{u}, append(ms[:i:i], ms[i+1:]...)...)
+						}
+						break
+					}
+				}
+				if rapid.Bool().Draw(t, "usageOnly") {
+					c.NearMiss = "retype:usage-only"
+					ms2 := a.Members()
+					for i := range ms2 {
+						if ms2[i].Name == "usage" {
+							ms2[i].Raw = rapid.SampledFrom([]string{`"1"`, `"ssh-only"`, "[]", "true"}).Draw(t, "usageOnlyRaw")
+						}
+					}
+					ms = ms2
+				}
+			}
 		case 3:
 			c.NearMiss = "truncate"
 			s := vh.JoinMembers(ms, "")
@@ -367,7 +392,7 @@ func gen(t *rapid.T) Case {
 	return c
 }
 
-const rule = "certificates with KeyIDs built from attribute sets (16 flag combinations x touch policy {-1..4,7} x version, decorated with random transaction ids, principals, usage (one value in 24 is 1..70 KB long, one principal list in 24 has 8..1000 entries: KeyIDs beyond 4 KiB and 64 KiB), extra members, member order, JSON whitespace inside and around the object), near-miss KeyIDs (one required member deleted - in half of those with its exact name still in the text as a string value, a principal, a nested member or an extra string - / upper-cased / retyped, truncated text, a complete KeyID followed by a trailer such as a brace or a second KeyID), free text and nil certificates; critical option nil-map / absent / empty / set, other critical options and look-alike names (other case, trailing blank / dot / digit / NUL, underscores, a prefix, the singular, the vendor form name@domain), extensions carrying the option name; certificate kind unset / user / host / undefined, serial and validity window at their extremes (no input of the type). Oracle: independently written decision table for GetType, Label = documented type name + 'SSH-' + transaction id (error for unknown), GetPrincipals suffix rules. Non-trivial: decodable KeyID with at least one flag set or the critical option present; distinct by Case hash."
+const rule = "certificates with KeyIDs built from attribute sets (16 flag combinations x touch policy {-1..4,7} x version, decorated with random transaction ids, principals, usage (one value in 24 is 1..70 KB long, one principal list in 24 has 8..1000 entries: KeyIDs beyond 4 KiB and 64 KiB), extra members, member order, JSON whitespace inside and around the object), near-miss KeyIDs (one required member deleted - in half of those with its exact name still in the text as a string value, a principal, a nested member or an extra string - / upper-cased / retyped (also the optional usage member, alone, or in front of a mistyped required one), truncated text, a complete KeyID followed by a trailer such as a brace or a second KeyID), free text and nil certificates; critical option nil-map / absent / empty / set, other critical options and look-alike names (other case, trailing blank / dot / digit / NUL, underscores, a prefix, the singular, the vendor form name@domain), extensions carrying the option name; certificate kind unset / user / host / undefined, serial and validity window at their extremes (no input of the type). Oracle: independently written decision table for GetType, Label = documented type name + 'SSH-' + transaction id (error for unknown), GetPrincipals suffix rules. Non-trivial: decodable KeyID with at least one flag set or the critical option present; distinct by Case hash."
 
 func TestC19Random(t *testing.T) {
 	vh.Run(t, vh.Spec[Case]{Property: "C19", Name: "TestC19Random", Rule: rule, Gen: gen, Exec: exec})
